@@ -17,7 +17,7 @@ import re
 import z3
 
 from pyvc.unit import unit
-from pyvc.proxies import And, Or, Not, Implies, SBool, SInt, SStr
+from pyvc.proxies import And, Or, Not, Implies, SBool, SInt, SStr, Len
 from pyvc import regex, core
 
 LEVEL = "other"
@@ -68,6 +68,73 @@ def u_status_line(c):
     else:
         c.cover("rejected")
         c.oblige("accepts-exactly-the-http-1.x-status-lines", Not(SBool(z3.InRe(line.t, v1))))
+
+
+@unit("C43", "_parseparam", [(M, "_parseparam")], z3_ms=8000, cvc5_ms=15000)
+def u_parseparam(c):
+    """the tokenizer under _parse_header, for every string: never raises (every character index it reads is inside the string); the pieces tile the string - the
+    first starts right after the leading ';', each next one right after the ';' that ended the previous one, each is the stripped form of that slice, and when the
+    string starts with ';' the last piece ends at the end of the string (nothing is dropped); both loops make progress (so it terminates).  Without a leading ';'
+    there are no pieces (_parse_header always supplies one)."""
+    from pyvc.rewrite import LoopSpec
+    s = c.str("s")
+    if not c.symbolic and c.model is None:
+        s = c.rng.choice([";a;b", ";", "", ";;", ';x="a;b";y', ';x="a\\";y', ";\\", ';"', ';a\\"b;c', "no-semicolon", ';x="\\', "; a = 1 ;b"])
+        c.values["s"] = s
+    n = Len(s)
+    G = {"pieces": 0, "last_end": 0, "head_start": None, "head_end": None}
+
+    def ch(i):
+        return s[i:i + 1]
+
+    def inv_outer(c_, L, old):
+        st_ = L["start"]
+        return And(st_ >= 0, st_ <= n, st_ == G["last_end"],
+                   Or(And(st_ == 0, G["pieces"] == 0), st_ == n, ch(st_) == ";"),
+                   Implies(st_ >= 1, And(s.startswith(";"), G["pieces"] >= 1)), Implies(G["pieces"] >= 1, st_ >= 1))
+
+    def inv_inner(c_, L, old):
+        # `end` may step one past the end (a backslash as the last character inside quotes); it is clamped after the loop
+        return And(L["start"] >= 1, L["start"] <= n, L["end"] >= L["start"], L["end"] <= n + 1, L["start"] == G["last_end"] + 1, ch(L["start"] - 1) == ";")
+
+    def fields_outer(c_, L):
+        G["last_end"] = c_.nat("h_last_end")
+        G["pieces"] = c_.nat("h_pieces")
+
+    def havoc_outer(c_, L, names):
+        G["head_start"] = c_.int("h_start")
+        return {"start": G["head_start"]}
+
+    def havoc_inner(c_, L, names):
+        G["head_end"] = c_.int("h_end")
+        return {"end": G["head_end"]}
+
+    def step_outer(c_, L):
+        c_.oblige("variant/outer: start strictly increases", L["start"] > G["head_start"])
+
+    def step_inner(c_, L):
+        c_.oblige("variant/inner: end strictly increases", L["end"] > G["head_end"])
+
+    loops = {0: LoopSpec(inv_outer, fields=fields_outer, havoc=havoc_outer, ghost_step=step_outer),
+             1: LoopSpec(inv_inner, havoc=havoc_inner, ghost_step=step_inner)} if c.symbolic else {}
+    f = c.fn(M, "_parseparam", loops=loops)
+
+    def consume():
+        g = f(s)
+        for piece in g:
+            loc = g.gi_frame.f_locals
+            a, b = loc["start"], loc["end"]
+            c.oblige("post/piece-starts-right-after-the-semicolon-that-ended-the-previous-one", And(a == G["last_end"] + 1, ch(a - 1) == ";"))
+            c.oblige("post/piece-is-the-stripped-slice-inside-the-string", And(a <= b, b <= n, piece == s[a:b].strip()))
+            c.oblige("post/piece-ends-at-a-semicolon-or-at-the-end", Or(b == n, ch(b) == ";"))
+            G["pieces"] = G["pieces"] + 1
+            G["last_end"] = b
+    out = c.call(consume)
+    c.only_raises(out, ())
+    c.cover("_parseparam/finished")
+    lead = s.startswith(";")
+    c.oblige("post/no-piece-without-a-leading-semicolon", Implies(Not(lead) if c.symbolic else not lead, G["pieces"] == 0))
+    c.oblige("post/with-a-leading-semicolon-the-pieces-cover-the-whole-string", Implies(lead, And(G["last_end"] == n, G["pieces"] >= 1)))
 
 
 @unit("C43", "split_host_and_port", [(M, "split_host_and_port")])
